@@ -4,8 +4,12 @@ import (
 	"encoding/json"
 	"fmt"
 	"os"
+	"os/exec"
 	"path/filepath"
+	"sort"
 	"strings"
+
+	"github.com/jsightapi/jsight-api-core/core"
 )
 
 func init() {
@@ -67,6 +71,62 @@ func replayCmd(args []string) *Result {
 			}
 		} else if out == "panic" {
 			res.mismatch("c01:panic", pm, json.RawMessage(b))
+		}
+	case "c06-hist":
+		// a history of builds sharing option values: re-run it here and compare the last step with a fresh process
+		var rec struct {
+			History []struct {
+				Include string   `json:"include"`
+				Root    string   `json:"root"`
+				Options []string `json:"options"`
+			} `json:"history"`
+			Pool map[string][]string `json:"pool"`
+		}
+		_ = json.Unmarshal(b, &rec)
+		dir, _ := os.MkdirTemp(scratchBase(), "vh-replay-")
+		defer os.RemoveAll(dir)
+		pool := map[string]core.Option{}
+		for nm, kinds := range rec.Pool {
+			bans, err := c06Bans(kinds)
+			if err != nil {
+				res.Error = err.Error()
+				return res
+			}
+			pool[nm] = core.WithBannedDirectives(bans...)
+		}
+		rootPath := filepath.Join(dir, "root.jst")
+		var last buildObs
+		var lastBans []string
+		for i, st := range rec.History {
+			_ = os.WriteFile(filepath.Join(dir, "common.jst"), []byte(st.Include), 0o644)
+			_ = os.WriteFile(rootPath, []byte(st.Root), 0o644)
+			var opts []core.Option
+			set := map[string]struct{}{}
+			for _, o := range st.Options {
+				opts = append(opts, pool[o])
+				for _, k := range rec.Pool[o] {
+					set[k] = struct{}{}
+				}
+			}
+			lastBans = lastBans[:0]
+			for k := range set {
+				lastBans = append(lastBans, k)
+			}
+			sort.Strings(lastBans)
+			last = buildWith(rootPath, opts...)
+			say("step %d options %v: %s %s", i+1, st.Options, last.Res, firstLine(last.Msg))
+		}
+		self, _ := os.Executable()
+		out, _ := exec.Command(self, "digest-bans", rootPath, strings.Join(lastBans, ",")).Output()
+		fresh := ""
+		for _, l := range splitLines(string(out)) {
+			if strings.HasPrefix(l, "DIGEST ") {
+				fresh = l[7:]
+			}
+		}
+		say("fresh process, fresh options %v: %s", lastBans, clip(fresh, 120))
+		if here := c06ObsDigest(last, dir); fresh != "" && here != fresh {
+			res.mismatch("c06:depends-on-prior-builds", "the last step of the history differs from a fresh process: "+clip(here, 120), json.RawMessage(b))
 		}
 	case "c07", "c09", "c19", "c03-include", "c06-history":
 		// multi-file projects: rendered files are part of the record
